@@ -47,8 +47,20 @@ def _is_subject(node, subject_texts: Set[str], binds) -> bool:
     return norm(node) in subject_texts
 
 
-def _const_str(node, binds) -> Optional[List[str]]:
+PROG = None  # set by Ctx: lets class/module constants stand for their literal value
+
+
+def _const_str(node, binds, frame=None) -> Optional[List[str]]:
     """Constant string value(s) of a node (a Name bound to a constant counts)."""
+    if PROG is not None and frame is not None and isinstance(node, (ast.Name, ast.Attribute)) \
+            and not (isinstance(node, ast.Name) and binds and node.id in binds):
+        from .paths import NOCONST, const_value
+
+        v = const_value(PROG, node, frame[0], frame[1])
+        if isinstance(v, str):
+            return [v]
+        if isinstance(v, tuple) and v and all(isinstance(x, str) for x in v):
+            return list(v)
     if isinstance(node, ast.Constant) and isinstance(node.value, str):
         return [node.value]
     if isinstance(node, ast.Name) and binds and node.id in binds and binds[node.id].kind == "const" \
@@ -91,7 +103,7 @@ def regex_is_factor_safe(pattern: str) -> bool:
     return walk(tree)
 
 
-def constraint_of(test_node, decided: bool, subject_texts: Set[str], binds=None) -> List[Constraint]:
+def constraint_of(test_node, decided: bool, subject_texts: Set[str], binds=None, frame=None) -> List[Constraint]:
     """Interpret one decided leaf test as constraint(s) on the subject, or []."""
     n = test_node
     out: List[Constraint] = []
@@ -105,7 +117,7 @@ def constraint_of(test_node, decided: bool, subject_texts: Set[str], binds=None)
         op, left, right = n.ops[0], n.left, n.comparators[0]
         # L in X / L not in X
         if isinstance(op, (ast.In, ast.NotIn)) and _is_subject(right, subject_texts, binds):
-            lits = _const_str(left, binds)
+            lits = _const_str(left, binds, frame)
             if lits is not None and len(lits) == 1:
                 contains = decided if isinstance(op, ast.In) else not decided
                 add("hasfactor" if contains else "nofactor", lits)
@@ -113,7 +125,7 @@ def constraint_of(test_node, decided: bool, subject_texts: Set[str], binds=None)
         if isinstance(left, ast.Call) and isinstance(left.func, ast.Attribute) \
                 and left.func.attr in ("find", "rfind", "count") and _is_subject(left.func.value, subject_texts, binds) \
                 and left.args:
-            lits = _const_str(left.args[0], binds)
+            lits = _const_str(left.args[0], binds, frame)
             rc = None
             if isinstance(right, ast.Constant):
                 rc = right.value
@@ -142,7 +154,7 @@ def constraint_of(test_node, decided: bool, subject_texts: Set[str], binds=None)
     if isinstance(n, ast.Call):
         d = dotted(n.func) or ""
         if d in ("re.search",) and len(n.args) >= 2 and _is_subject(n.args[1], subject_texts, binds):
-            lits = _const_str(n.args[0], binds)
+            lits = _const_str(n.args[0], binds, frame)
             if lits is not None and len(lits) == 1 and len(n.args) == 2 and not n.keywords:
                 if decided:
                     out.append(Constraint("match", lits[0], "re:" + repr(lits[0])))
@@ -154,7 +166,7 @@ def constraint_of(test_node, decided: bool, subject_texts: Set[str], binds=None)
             g = n.args[0]
             if len(g.generators) == 1 and not g.generators[0].ifs and isinstance(g.generators[0].target, ast.Name):
                 var = g.generators[0].target.id
-                lits = _const_str(g.generators[0].iter, binds)
+                lits = _const_str(g.generators[0].iter, binds, frame)
                 elt = g.elt
                 if lits is not None and isinstance(elt, ast.Compare) and len(elt.ops) == 1 \
                         and isinstance(elt.left, ast.Name) and elt.left.id == var \
@@ -173,7 +185,7 @@ def path_constraints(path: Path, subject_texts: Set[str], frame_filter=None) -> 
     for ev in path.events:
         if ev.kind != "test" or ev.target != "assumed":
             continue
-        out.extend(constraint_of(ev.node, bool(ev.extra), subject_texts, getattr(ev, "binds", None)))
+        out.extend(constraint_of(ev.node, bool(ev.extra), subject_texts, getattr(ev, "binds", None), ev.frame))
     return out
 
 
